@@ -108,7 +108,10 @@ theorem parse (g : List Text → Text → Option Bytes) (h : Gen.parse? = some g
     · intro line acc
       simp only [parseLine, rstripNL]
       by_cases hlen : (rstripChar 10 line).length ≤ fmt.length
-      · simp only [hlen, if_true, decide_true]
+      · have hgt : ¬ (fmt.length < (rstripChar 10 line).length) := by omega
+        have hge : fmt.length ≥ (rstripChar 10 line).length := hlen
+        simp only [hlen, hgt, hge, if_true, if_false, decide_true, decide_false, gt_iff_lt, ge_iff_le, Bool.false_eq_true, Bool.not_true,
+          Bool.not_false, not_true_eq_false, not_false_eq_true, Option.bind_eq_bind, Option.bind_some, Option.pure_def, bind, pure]
         first
         | rw [forIn_parse (fun d p => (d, p)) ?_ hlen hp acc]
         | rw [forIn_parse (fun d p => (p, d)) ?_ hlen hp acc]
@@ -135,7 +138,8 @@ theorem parse (g : List Text → Text → Option Bytes) (h : Gen.parse? = some g
           by_cases hA : fc = 65 <;> by_cases hD : fc = 68 <;> by_cases hC : fc = 67 <;> by_cases hL : fc = ch <;>
             cases hx : isHexDigit ch <;> cases prev <;> simp_all [Py.sub] <;>
               (try subst_vars) <;> (try simp_all) <;> (try omega)
-      · simp [hlen]
+      · have hgt : fmt.length < (rstripChar 10 line).length := by omega
+        simp [hlen, hgt]
 
 /-- the default template of `parse` in the source text, and the module constant it names -/
 theorem parseDefaultFormat (g : Text) (h : Gen.parseDefaultFormat? = some g) : g = fmtDefault := by
